@@ -8,7 +8,7 @@ RULE = ("generated worlds of every feature kind (area features with depth surfac
         "so the moved file is exactly representable), Cartesian rotation about the vertical (plume rotation angles shifted accordingly), spherical common longitude offset (multiples of 0.25 "
         "degrees, chosen so that longitudes stay in [-360, 360] and biased towards offsets that push features across the +-180 meridian), and the same query described with longitude L+-360. "
         "oracle: original vs moved world on the library; temperature, composition, grains within 1e-6 relative (+1e-5 absolute), tag exact; a query is skipped as `near a boundary` when any of six "
-        "neighbours 1 m away (four horizontal, two in depth) has a different tag or a temperature more than 1 K different in the ORIGINAL world. correspondence: the Lean model vs the library on "
+        "neighbours 1 m away (four horizontal, two in depth) has a different tag or a temperature more than 1 K different, in the original or in the moved world. correspondence: the Lean model vs the library on "
         "the moved worlds (translations and longitude offsets only: the moved numbers are exact in both JSON readers). non-trivial = compared query inside at least one feature.")
 TRUSTED_BASE = ["rotation invariance of the polygon test is not a theorem (C08_rotation_partial excludes it): it is covered by this oracle only",
                 "the theorems are exact-field statements per kernel and per guard (polygon, Bezier/Newton iterates, ridge distance, kd-tree/surface lookup, bounding box, plume, area-feature guard); "
@@ -157,6 +157,8 @@ def oracle(seed, tier):
             lines.append("world b%d %s -" % (mi, p2))
             for (sp, d) in qs:
                 lines.append(q3("b%d" % mi, to3(g, list(fpt(sp[0], sp[1])), d), d, PROPS))
+                for (sp2, d2) in neighbours(g, sp, d, spherical):
+                    lines.append(q3("b%d" % mi, to3(g, list(fpt(sp2[0], sp2[1])), d2), d2, [(1, 0, 0), (4, 0, 0)]))
         rc, out, err = proto.run_harness(lines)
         if rc != 0 or len(out) != len(lines):
             viol.append({"what": "library died on an original/moved world pair: rc=%s answered %d of %d %s" % (rc, len(out), len(lines), err[-300:]), "world_json": w, "probe": "crash"})
@@ -175,18 +177,23 @@ def oracle(seed, tier):
                 t0, tag0 = a[1][0], a[1][-1]
                 boundary = any(n[1][1] != tag0 or abs(n[1][0] - t0) > 1.0 for n in nb)
             base.append((a, boundary))
+        k0 = k
         for mi, (name, w2, fpt, exact) in enumerate(mv):
             kind = name.split("(")[0].split("+")[0].split("-")[0]
+            k = k0 + mi * (1 + 7 * len(qs))
             if out[k] != "ok":
                 viol.append({"what": "the moved world (%s) is refused although the original is accepted: %s" % (name, out[k][:200]), "world_json": w, "moved_world_json": w2, "probe": "moved-world-refused"})
-                k += 1 + len(qs)
                 continue
             k += 1
             for qi, (sp, d) in enumerate(qs):
                 b = parse_answer(out[k])
-                k += 1
+                nb = [parse_answer(out[k + 1 + j]) for j in range(6)]
+                k += 7
                 a, boundary = base[qi]
                 cases += 1
+                # the moved query may itself sit on a decision boundary of the moved world (rounding of the moved coordinates decides there)
+                if b[0] == "ok" and all(n[0] == "ok" for n in nb):
+                    boundary = boundary or any(n[1][1] != b[1][-1] or abs(n[1][0] - b[1][0]) > 1.0 for n in nb)
                 if boundary or a[0] != "ok":
                     skipped += 1
                     continue
